@@ -47,6 +47,9 @@ func c09Hdr(format, enc string) string {
 func c09Corpus() []c09Item {
 	var items []c09Item
 	for _, it := range corpus.Minimal() {
+		if len(it.Inputs[0]) > 2000 {
+			continue // long inputs are in c09Long (cuts at every offset instead of all short-read sizes squared)
+		}
 		ci := c09Item{Name: it.Name, Schema: it.Schema}
 		for _, in := range it.Inputs {
 			ci.Inputs = append(ci.Inputs, []byte(in))
@@ -122,6 +125,29 @@ func c09Corpus() []c09Item {
 	add("c09/xml-latin1", `{`+c09Hdr("xml", "iso-8859-1")+`,
  "transform_declarations":{"FINAL_OUTPUT":{"xpath":"/r/a","object":{"t":{"xpath":"."}}}}}`,
 		"<r><a>caf\xe9</a><a>\xa0x</a></r>")
+	// empty lines after the last line - after complete inputs (every declaration used up) and after
+	// truncated ones (a mandatory envelope / record still missing): the final result is decided by the
+	// input's content, not by whether the trailing line breaks were already buffered
+	for _, it := range corpus.Minimal() {
+		var ins []string
+		switch it.Name {
+		case "fixedlength2/hf", "fixed-length/hf":
+			ins = []string{"A0\nA9\nZ0\n\n\n", "A0\nA9\n\n\n", "A0\nA9\nV0\nV2 t001\nV9\n\r\n\r\n", "A0\nA9\nZ0\n\n \n"}
+		case "fixedlength2/nested":
+			ins = []string{"H\nT\n\n", "H\n\n\n", "H\nNabc\n\n\n", "H\nT\n\nX\n"}
+		case "csv2/hf":
+			ins = []string{"B\n1,2\nE\n\n\n", "B\n1,2\n\n\n", "B\n1,2\nE\n\r\n\r\n"}
+		case "csv2/nested":
+			ins = []string{"F,f1\nT\n\n\n", "F,f1\n\n\n", "F,f1\nH,w1\nD,1\n\r\n\r\n", "F,f1\nT\n\nX\n"}
+		case "fixedlength2/rows2", "fixed-length/rows2", "csv2/rows2":
+			ins = []string{"a1\nb12\n\n\n", "a1\nb12\na2\n\n\n"}
+		case "edi/nested", "edi/flat":
+			ins = []string{it.Inputs[0] + "\n\n", it.Inputs[len(it.Inputs)-1] + "\n\n"}
+		}
+		if len(ins) > 0 {
+			add("c09/"+strings.ReplaceAll(it.Name, "/", "-")+"-trailing-empty-lines", it.Schema, ins...)
+		}
+	}
 	add("c09/csv-latin1", `{`+c09Hdr("csv", "iso-8859-1")+`,
  "file_declaration":{"delimiter":";","data_row_index":1,"columns":[{"name":"a"},{"name":"b"}]},
  "transform_declarations":{"FINAL_OUTPUT":{"object":{"a":{"xpath":"a"},"b":{"xpath":"b"}}}}}`,
@@ -171,10 +197,21 @@ func c09Long() []c09Item {
 	for _, it := range c09Corpus() {
 		m[it.Name] = it.Schema
 	}
+	longJSON := ""
 	for _, it := range corpus.Minimal() {
 		m[it.Name] = it.Schema
+		if it.Name == "json/long-values" {
+			longJSON = it.Inputs[0]
+		}
+	}
+	// windows-1252 text made mostly of the bytes 0x80..0x9F, which become three UTF-8 bytes each
+	var dense strings.Builder
+	for i := 0; i < 75; i++ {
+		dense.WriteString(fmt.Sprintf("a%02d", i%100) + strings.Repeat("\x97\x85\x80\x93", 18) + "\nb" + strings.Repeat("\x94\xe9", 3) + "\nc1\n")
 	}
 	return []c09Item{
+		{Name: "c09/fixed-length-rows3-1252", Schema: m["c09/fixed-length-rows3-1252"], Inputs: [][]byte{[]byte(dense.String())}},
+		{Name: "json/long-values", Schema: m["json/long-values"], Inputs: [][]byte{[]byte(longJSON)}},
 		{Name: "c09/fixedlength2-rows3", Schema: m["c09/fixedlength2-rows3"], Inputs: [][]byte{[]byte(fl.String())}},
 		{Name: "fixed-length/rows2", Schema: m["fixed-length/rows2"], Inputs: [][]byte{[]byte(strings.Repeat("a1"+strings.Repeat("k", 40)+"\nb12"+strings.Repeat("m", 38)+"\n", 60))}},
 		{Name: "csv2/flat", Schema: m["csv2/flat"], Inputs: [][]byte{[]byte(cs.String())}},
@@ -272,7 +309,7 @@ func init() {
 			"the io.Reader obeys the io.Reader contract (never more than len(p) bytes, at most 3 consecutive empty reads)",
 			"schedules beyond the deviation bound are covered only by the byte-at-a-time and all-cut-sets families",
 		},
-		BudgetQuick: 100, BudgetThorough: 1500,
+		BudgetQuick: 200, BudgetThorough: 1500,
 		Run: func(c *core.Ctx) {
 			bound := 2
 			tinyMax := 11
